@@ -459,7 +459,22 @@ func (s *Sched) deadlockDescription() (sig, msg string) {
 	}
 	sort.Strings(el)
 	if len(el) == 0 {
-		el = []string{"no-cycle"}
+		// nobody in a cycle: some lock is held by a task that finished or moved on without releasing it
+		for _, t := range s.tasks {
+			if _, ok := waiting[t]; ok {
+				li := s.locks[t.wantKey]
+				if li.holder.state == tsDone || li.holder.state == tsParked || li.holder.held[t.wantKey] == "" {
+					edges["lock-leaked:"+li.site+":"+t.wantKey.kind] = true
+				}
+			}
+		}
+		for e := range edges {
+			el = append(el, e)
+		}
+		sort.Strings(el)
+		if len(el) == 0 {
+			el = []string{"no-cycle"}
+		}
 	}
 	return strings.Join(el, ","), strings.Join(parts, "; ")
 }
